@@ -7,6 +7,7 @@ pub mod c04;
 pub mod c05;
 pub mod c06;
 pub mod c07;
+pub mod c08;
 pub mod c09;
 pub mod c11;
 pub mod c12;
@@ -24,6 +25,7 @@ pub fn lookup(id: &str) -> Option<&'static dyn Property> {
         "C05" => Some(&c05::C05),
         "C06" => Some(&c06::C06),
         "C07" => Some(&c07::C07),
+        "C08" => Some(&c08::C08),
         "C09" => Some(&c09::C09),
         "C11" => Some(&c11::C11),
         "C12" => Some(&c12::C12),
